@@ -14,7 +14,7 @@ from geneticengine.representations.tree.utils import relabel_nodes_of_trees
 from geneticengine.grammar.utils import get_arguments, is_builtin_class_instance, is_generic_tuple
 from geneticengine.grammar.utils import is_union, get_generic_parameters
 from geneticengine.grammar.utils import get_generic_parameter, is_abstract
-from geneticengine.grammar.utils import is_generic_list
+from geneticengine.grammar.utils import is_generic_list, is_annotated
 from geneticengine.grammar.utils import is_metahandler
 from geneticengine.exceptions import GeneticEngineError
 from geneticengine.grammar.metahandlers.base import MetaHandlerGenerator, SynthesisException
@@ -121,8 +121,65 @@ class MaxDepthDecider(BaseDecider):
 class FullDecider(MaxDepthDecider):
     """FullDecider will always preffer non-terminal productions within a maximum depth."""
 
+    def can_be_without_nodes(self, ty: type) -> bool:
+        """Whether a value of this type may contain no tree node at all (a number, an empty list, ...)."""
+        if is_annotated(ty):
+            base = get_generic_parameter(ty)
+            if is_generic_list(base) and getattr(ty.__metadata__[0], "min", 0) > 0:
+                return self.can_be_without_nodes(get_generic_parameter(base))
+            return self.can_be_without_nodes(base)
+        if is_generic_list(ty):
+            return True
+        if is_generic_tuple(ty):
+            return all(self.can_be_without_nodes(t) for t in get_generic_parameters(ty))
+        if is_union(ty):
+            return any(self.can_be_without_nodes(t) for t in get_generic_parameters(ty))
+        return ty in (int, float, str, bool)
+
+    def can_be_filled(self, ty: type, levels: int) -> bool:
+        """Whether some value of this type has every one of its branches end exactly `levels` levels further down.
+        Being recursive and shallow enough does not imply it (the trees of a type may skip depths), and a production
+        that is not recursive may still reach the depth that is left."""
+        if levels < 1 or ty in (int, float, str, bool):
+            return False
+        if is_annotated(ty) or is_generic_list(ty):
+            return self.can_be_filled(get_generic_parameter(ty), levels)
+        if is_union(ty):
+            return any(self.can_be_filled(t, levels) for t in get_generic_parameters(ty))
+        if is_generic_tuple(ty):
+            parts = [(self.can_be_filled(t, levels), self.can_be_without_nodes(t)) for t in get_generic_parameters(ty)]
+            return any(f for f, _ in parts) and all(f or n for f, n in parts)
+        memo = self.__dict__.setdefault("_can_be_filled", {})
+        # level by level from the bottom (a production at one level only asks about the level below), so that a deep
+        # limit does not turn into a deep recursion
+        for lv in range(memo.get("levels", 0) + 1, levels + 1):
+            memo["levels"] = lv
+            for t in self.grammar.all_nodes:
+                if isinstance(t, type) and not is_abstract(t) and t not in self.grammar.alternatives:
+                    self.can_be_filled(t, lv)
+        if (ty, levels) not in memo:
+            memo[(ty, levels)] = False  # (no type is below itself without a production in between)
+            if ty in self.grammar.alternatives:
+                memo[(ty, levels)] = any(self.can_be_filled(t, levels) for t in self.grammar.alternatives[ty])
+            elif not is_abstract(ty):
+                if ty not in memo:
+                    memo[ty] = [t for _, t in get_arguments(ty)]
+                if levels == 1:
+                    memo[(ty, levels)] = all(self.can_be_without_nodes(t) for t in memo[ty])
+                else:
+                    parts = [(self.can_be_filled(t, levels - 1), self.can_be_without_nodes(t)) for t in memo[ty]]
+                    memo[(ty, levels)] = any(f for f, _ in parts) and all(f or n for f, n in parts)
+        return memo[(ty, levels)]
+
     def choose_production_alternatives(self, ty: type, alternatives: list[type], ctx: LocalSynthesisContext) -> type:
         assert len(alternatives) > 0, "No alternatives presented"
+        left = self.max_depth - ctx.depth
+        if ctx.depth <= self.max_depth and not self.grammar.expansion_depthing:
+            exact = [
+                x for x in alternatives if self.grammar.get_distance_to_terminal(x) <= left and self.can_be_filled(x, left)
+            ]
+            if exact:
+                return self.random.choice(exact)
         if ctx.depth <= self.max_depth:
             c_alternatives = [
                 x
